@@ -167,9 +167,11 @@ int verif_close(int fd)
     return -1;
   }
   fd_release(fd); /* Linux releases the descriptor even if an error is reported */
+  /* close may report an error (EINTR, EIO); the library ignores it by design, so
+     it is not counted among the failures start has to report: only errno moves */
   int e = maybe_fault();
   if (e) {
-    fault(e);
+    g.err = e;
     return -1;
   }
   return 0;
@@ -294,7 +296,11 @@ int verif_fileno(FILE *f)
     fd = gc.cfg_file_fd;
   }
   if (fd < 0) {
-    g.err = EBADF;
+    if (f == VERIF_USER_FILE) {
+      fault(EBADF); /* an unusable redirect target: start has to report it */
+    } else {
+      g.err = EBADF; /* a missing parent stream: the library falls back to the null device */
+    }
     return -1;
   }
   return fd;
